@@ -7,6 +7,7 @@
     (vlib/gen/c44_raisers.py, props/C44_driver.py), and co_positions()/co_firstlineno/co_filename of every compiled
     function's code object vs the node positions the compiler recorded for it.
 """
+import ast
 import json
 import os
 import re
@@ -160,11 +161,35 @@ def _lcs_pairs(a, b):
     return out
 
 
-def compare_tb(ref, got, mod, srcname, srclines):
+def scopes_by_line(source):
+    """line -> names of the function-like scopes that have code on that line (def name, 'lambda', 'genexpr')"""
+    out = {}
+    try:
+        tree = ast.parse(source)
+    except SyntaxError:
+        return out
+    for node in ast.walk(tree):
+        if isinstance(node, ast.Lambda):
+            nm = 'lambda'
+        elif isinstance(node, ast.GeneratorExp):
+            nm = 'genexpr'
+        elif isinstance(node, (ast.FunctionDef, ast.AsyncFunctionDef)):
+            nm = node.name
+        else:
+            continue
+        for ln in range(node.lineno, (node.end_lineno or node.lineno) + 1):
+            d = out.setdefault(ln, {})
+            d[nm] = d.get(nm, 0) + 1
+    return out
+
+
+def compare_tb(ref, got, mod, srcname, srclines, scopes=None):
     """Compare the compiled traceback entry list with CPython's. Entries are [file, name, line, qualname].
     Returns a list of (mechanism key, text); empty when the compiled traceback names the same functions, file and
     lines in the same order.  Entries are aligned on their line numbers (LCS); synthetic comprehension /
     generator-expression frames are optional on both sides."""
+    if scopes is None:
+        scopes = scopes_by_line('\n'.join(srclines))
     def text(i):
         return srclines[i - 1] if 0 < i <= len(srclines) else ''
     issues = []
@@ -174,11 +199,13 @@ def compare_tb(ref, got, mod, srcname, srclines):
         if not g[0].endswith(srcname):
             issues.append(('tb:file:%s' % frame_kind(r[1]), 'entry for %s carries file %r' % (r[1], g[0])))
         if not accepted_name(g[1], r[1], r[3], mod):
-            other = [r2 for r2 in ref if r2 is not r and r2[2] == g[2] and accepted_name(g[1], r2[1], r2[3], mod)]
-            if other:
+            glast = _unnumbered(g[1].rsplit('.', 1)[-1])
+            rlast = strip_angle(r[1])
+            cnt = scopes.get(g[2], {}).get(glast, 0)
+            if (glast != rlast and cnt >= 1) or (glast == rlast and cnt >= 2):
                 issues.append(('tb:name:reported-as-another-function-on-the-same-line',
-                               'entry at line %d is named %r (the name of %r, which has an entry on the same line); '
-                               'CPython names it %r (%s)' % (g[2], g[1], other[0][1], r[1], r[3])))
+                               'entry at line %d is named %r (a function that also has code on that line); '
+                               'CPython names it %r (%s)' % (g[2], g[1], r[1], r[3])))
             else:
                 issues.append(('tb:name:%s-reported-as-%s' % (frame_kind(r[1]), frame_kind(g[1])),
                                'entry at line %d is named %r, CPython names it %r (%s)' % (g[2], g[1], r[1], r[3])))
@@ -342,6 +369,7 @@ def main(ck):
     for f in fatals:
         ck.inconclusive_if(True, 'driver failure: %s' % str(f)[-300:])
     srclines = {n: sources[n].split('\n') for n in sources}
+    scopes = {n: scopes_by_line(sources[n]) for n in sources}
     tagsof = {(n, c['entry']): c['tags'] for n in sources for c in meta[n]['cases']}
     hist = {'tb_equal': 0, 'no_raise_in_cpython': 0, 'exc_type_differs': 0, 'compiled_did_not_raise': 0,
             'chain_length_differs': 0, 'recursion': 0}
@@ -382,7 +410,7 @@ def main(ck):
         issues = []
         for lvl, ((_, rents), (_, gents)) in enumerate(zip(ref, got)):
             frames_compared += len(rents)
-            for key, txt in compare_tb(rents, gents, mod, srcname, srclines[mod]):
+            for key, txt in compare_tb(rents, gents, mod, srcname, srclines[mod], scopes[mod]):
                 issues.append((key + (':in-chained-exception' if lvl else ''), txt))
         shape = (tuple(sorted(tags)), tuple(tuple((frame_kind(e[1]), stmt_kind(srclines[mod][e[2] - 1])) for e in x[1]) for x in ref))
         distinct.add(shape)
